@@ -134,6 +134,11 @@ func (jit *JIterator) closeChunk() {
 }
 
 func (jit *JIterator) advanceChunk(ctx context.Context) error {
+	// where the chunk iterator stands now that it has run out of its chunk: everything before is delivered
+	left := jit.pos
+	if jit.ci != nil && jit.ci.Pos() >= 0 {
+		left.Idx = uint32(jit.ci.Pos())
+	}
 	jit.closeChunk()
 	if jit.bkwrd {
 		jit.pos.CId--
@@ -142,7 +147,13 @@ func (jit *JIterator) advanceChunk(ctx context.Context) error {
 		jit.pos.CId++
 		jit.pos.Idx = 0
 	}
-	return jit.ensureChkIt(ctx)
+	err := jit.ensureChkIt(ctx)
+	if err == io.EOF && !jit.bkwrd && jit.pos.CId == left.CId {
+		// there is no chunk behind the one just left: the end-of-data position is where its iterator stopped,
+		// not a record count read afterwards - records confirmed in between would be skipped for good
+		jit.pos = left
+	}
+	return err
 }
 
 // ensureChkId selects chunk by position iterator. It corrects the position if needed
